@@ -169,6 +169,10 @@ pub trait Holder<T> {
     fn bytes(&mut self) -> Option<(*const u8, usize)> {
         None
     }
+    /// replaces the complete state of the object by a byte image of the same size (taken in another process)
+    fn overwrite(&mut self, _image: &[u8]) -> bool {
+        false
+    }
 }
 
 /// FNV-1a over the raw bytes of the given regions (padding and stale slots included: two objects with the
@@ -222,5 +226,12 @@ impl<T> Holder<T> for InBlock<T> {
     }
     fn bytes(&mut self) -> Option<(*const u8, usize)> {
         Some((self.hdr as *const u8, self.total))
+    }
+    fn overwrite(&mut self, image: &[u8]) -> bool {
+        if image.len() != self.total {
+            return false;
+        }
+        unsafe { core::ptr::copy_nonoverlapping(image.as_ptr(), self.hdr as *mut u8, self.total) };
+        true
     }
 }
